@@ -39,6 +39,12 @@ type ServerCfg struct {
 	// that lets everybody in) which the option configured by Auth follows and
 	// - last option wins - replaces
 	AuthFirst string `json:"auth_first,omitempty"`
+	// CloseHook: a CloseConn hook is configured (the library never documents
+	// when it runs; it is a callback like any other)
+	CloseHook bool `json:"close_hook,omitempty"`
+	// ExtendTypes: that many ExtendTypes options are given (each registers
+	// nothing new: what matters is how the server stores and applies them)
+	ExtendTypes int `json:"extend_types,omitempty"`
 	// UserCaches: statement and portal caches are supplied through the
 	// Statements / Portals options (user types embedding the default caches)
 	UserCaches bool `json:"user_caches,omitempty"`
@@ -68,6 +74,9 @@ type AuthEntry struct {
 // MWSpec is one session middleware.
 type MWSpec struct {
 	Fail bool `json:"fail,omitempty"`
+	// Transient: the failure is a timeout (an error whose Timeout() reports
+	// true, as a middleware that consults a remote service would return)
+	Transient bool `json:"transient,omitempty"`
 	// Cancel: the middleware derives a cancellable session context; a statement
 	// program's "cancel" op cancels it (a session time limit that expires while
 	// a statement runs)
